@@ -344,12 +344,12 @@ pub fn families(prop: &str, tier: Tier) -> Vec<Cfg> {
                 inpub(2, 6),
                 inpub(2, 7),
                 inpub_rich(1, 8),
-                inpub(2, 9),
+                inpub_big(2, 9),
             ];
             c.broker.script_burst = true;
             c.broker.fifo = true;
             c.broker.reorder_window = 1;
-            c.rx = 256;
+            c.rx = 512;
             c.max_ops = if q { 12 } else { 14 };
             c.max_conns = 2;
             c.max_reqs = 0;
